@@ -10,7 +10,7 @@ import re
 import fdi as F
 
 ADAPTORS = ('map', 'filter', 'filter_map', 'copied', 'cloned', 'inspect')
-CONSUMERS = ('find', 'find_map', 'any', 'all', 'fold', 'for_each', 'max', 'min', 'position')
+CONSUMERS = ('find', 'find_map', 'any', 'all', 'fold', 'for_each', 'max', 'min', 'position', 'reduce')
 
 ITEM_TY = [
     (r"^std::slice::Iter<('\w+, )?(.*)>$", lambda m: '&' + m.group(2)),
@@ -128,7 +128,9 @@ def apply(I, st, clo, cargs, k):
     if I.call_closure(st, clo, cargs, cont):
         return False          # frame pushed: the state goes on inside the closure
     cv = I.resolve(st, clo)
-    if any(isinstance(a, F.Unknown) for a in cargs):
+    if isinstance(cv, F.FnItem):
+        rv = I.extern_value(st, cv.path, cargs, None, fn=st.frames[-1].body.path)
+    elif any(isinstance(a, F.Unknown) for a in cargs):
         rv = F.Unknown(f"{cv.name()} on unknown")
     else:
         rv = F.Sym(f"{cv.name()}({','.join(I.describe(st, a) for a in cargs)})", None, ('call', cv.name(), tuple(I.xof(st, a) for a in cargs)))
@@ -257,6 +259,15 @@ def m_consumer(I, st, fr, t, args, name):
                              lambda s2, x, n2: apply(I, s2, fn, [acc, x] if meth == 'fold' else [x], lambda s3, r: loop(s3, r if meth == 'fold' else acc, n2)),
                              lambda s2, n2: done(s2, acc), line)
         return _top(I, st, lambda s: loop(s, init, 0))
+
+    if meth == 'reduce':
+        fn = args[1]
+
+        def loop(s, acc, n):
+            return iter_next(I, s, itv, n,
+                             lambda s2, x, n2: loop(s2, x, n2) if acc is None else apply(I, s2, fn, [acc, x], lambda s3, r: loop(s3, r, n2)),
+                             lambda s2, n2: done(s2, NONE if acc is None else SOME(acc)), line)
+        return _top(I, st, lambda s: loop(s, None, 0))
 
     if meth in ('max', 'min'):
         def combine(s, a, b):
